@@ -2,7 +2,7 @@
    enumerated histories, lifted with forallb_forall): every history of one or two AddEmptyTrack calls over the seven
    supported media types and three kinds of language tag (two-track histories: 7 first tracks x 25 second tracks), each track followed by none or one of the descriptor call
    sequences fitting it (AVC avc1/avc3 with and without parameter sets, HEVC hvc1/hev1 with and without SEI, AVC
-   then HEVC on the same track, AC-3, E-AC-3 with and without dependent substreams, wvtt default/explicit, stpp
+   then HEVC on the same track, AAC-LC, HE-AAC v2, AC-3, E-AC-3 with and without dependent substreams, wvtt default/explicit, stpp
    default/explicit). *)
 From Coq Require Import String Ascii.
 From V.lib Require Import Base.
@@ -19,7 +19,7 @@ Definition ss_video : list (list desc) :=
     [DHevc (BS "hev1") [[64; 1]] [[66; 1; 1]] [] [] false];
     [DAvc (BS "avc3") ss_sps_a [] true; DHevc (BS "hev1") [] [[66; 1; 1]] [[68; 1]] [] true] ].
 Definition ss_audio : list (list desc) :=
-  [ []; [DAc3 (mkDac3 0 8 0 7 1 10)]; [DEc3 (mkDec3 1133 [mkEc3Sub 0 16 0 0 7 1 1 3])];
+  [ []; [DAac 2 48000]; [DAac 29 24000]; [DAc3 (mkDac3 0 8 0 7 1 10)]; [DEc3 (mkDec3 1133 [mkEc3Sub 0 16 0 0 7 1 1 3])];
     [DEc3 (mkDec3 256 [mkEc3Sub 1 16 1 2 2 0 0 0; mkEc3Sub 2 16 0 0 7 1 0 0])] ].
 Definition ss_wvtt : list (list desc) := [ []; [DWvtt []]; [DWvtt (BS "WEBVTT - title")] ].
 Definition ss_stpp : list (list desc) :=
@@ -57,5 +57,5 @@ Proof.
   apply roundtrip_sound. exact (A ops Hin).
 Qed.
 
-Lemma small_scope_size : lenN small_scope = 251.
+Lemma small_scope_size : lenN small_scope = 271.
 Proof. vm_compute. reflexivity. Qed.
